@@ -59,6 +59,11 @@ pub enum IdForm {
     PercentHyphen,
     /// path only: an extra segment after the id
     ExtraSegment,
+    /// header only: not an id at all - a long, valid UTF-8 text with multi-byte characters (so that
+    /// every byte offset from 60 to 70 falls inside a character for one of its variants)
+    LongUtf8(u8),
+    /// header only: two X-Client-Id headers, the first one malformed, the canonical one second
+    DuplicateBadFirst,
     /// path only: a percent-encoded control byte or other byte no id contains (%0A, %0D, %00,
     /// %7F, %20, %C3%A9), alone, inside, or after a complete id
     PercentOdd(u8),
@@ -158,6 +163,8 @@ fn id_text(u: Uuid, f: IdForm, in_path: bool) -> Option<Vec<u8>> {
             b
         }
         IdForm::PercentHyphen => canon.replace('-', "%2D").into_bytes(),
+        IdForm::LongUtf8(k) => format!("{}{}", "x".repeat((k % 3) as usize), ["\u{e9}", "\u{65e5}", "\u{1F600}"][(k as usize / 3) % 3].repeat(60)).into_bytes(),
+        IdForm::DuplicateBadFirst => b"not-an-id".to_vec(),
         IdForm::PercentOdd(k) => {
             let odd = ["%0A", "%0D", "%00", "%7F", "%20", "%C3%A9", "%09", "%1B"][(k as usize / 3) % 8];
             match k % 3 {
@@ -300,6 +307,9 @@ pub fn build(r: &RawReq, client: Uuid, other: Uuid, id: Uuid) -> Built {
             if r.cid == IdForm::Duplicate {
                 headers.push(("X-Client-Id".into(), other.to_string().into_bytes()));
             }
+            if r.cid == IdForm::DuplicateBadFirst {
+                headers.push(("X-Client-Id".into(), client.to_string().into_bytes()));
+            }
         }
     }
     let right_ct = if r.route == Route::AddSnapshot { CT_SNAP } else { CT_HS };
@@ -414,6 +424,8 @@ fn idform_header() -> impl Strategy<Value = IdForm> {
         1 => Just(IdForm::Absent),
         1 => Just(IdForm::NonAscii),
         1 => Just(IdForm::Duplicate),
+        1 => (0u8..9).prop_map(IdForm::LongUtf8),
+        1 => Just(IdForm::DuplicateBadFirst),
     ]
 }
 
@@ -801,10 +813,8 @@ pub fn check_limit_binary(lc: &LimitCase, st: &mut Stats) -> CheckResult {
     let dir = TempDir::new("c15b");
     let mut proc = None;
     for _ in 0..4 {
-        let l = std::net::TcpListener::bind("127.0.0.1:0").map_err(|e| Fail::Inconclusive(format!("no loopback port: {e}")))?;
-        let port = l.local_addr().unwrap().port();
-        drop(l);
-        let launch = crate::props::binary::Launch { args: vec!["--data-dir".into(), dir.path().to_string_lossy().into_owned(), "--listen".into(), format!("127.0.0.1:{port}")], env: vec![], connect: vec![format!("127.0.0.1:{port}").parse().unwrap()], cwd: None };
+        let port = crate::props::binary::free_port("127.0.0.1").ok_or_else(|| Fail::Inconclusive("no loopback port".into()))?;
+        let launch = crate::props::binary::Launch { args: vec!["--data-dir".into(), dir.path().to_string_lossy().into_owned(), "--listen".into(), format!("127.0.0.1:{port}")], env: vec![], connect: vec![format!("127.0.0.1:{port}").parse().unwrap()], cwd: None, dir_arg: None };
         if let Ok(p) = crate::props::binary::spawn(&bin, &launch) {
             proc = Some(p);
             break;
@@ -901,10 +911,8 @@ pub fn check_declared_binary(dc: &DeclCase, st: &mut Stats) -> CheckResult {
     let dir = TempDir::new("c15d");
     let mut proc = None;
     for _ in 0..4 {
-        let l = std::net::TcpListener::bind("127.0.0.1:0").map_err(|e| Fail::Inconclusive(format!("no loopback port: {e}")))?;
-        let port = l.local_addr().unwrap().port();
-        drop(l);
-        let launch = crate::props::binary::Launch { args: vec!["--data-dir".into(), dir.path().to_string_lossy().into_owned(), "--listen".into(), format!("127.0.0.1:{port}")], env: vec![], connect: vec![format!("127.0.0.1:{port}").parse().unwrap()], cwd: None };
+        let port = crate::props::binary::free_port("127.0.0.1").ok_or_else(|| Fail::Inconclusive("no loopback port".into()))?;
+        let launch = crate::props::binary::Launch { args: vec!["--data-dir".into(), dir.path().to_string_lossy().into_owned(), "--listen".into(), format!("127.0.0.1:{port}")], env: vec![], connect: vec![format!("127.0.0.1:{port}").parse().unwrap()], cwd: None, dir_arg: None };
         if let Ok(p) = crate::props::binary::spawn(&bin, &launch) {
             proc = Some(p);
             break;
@@ -1633,6 +1641,13 @@ pub fn run(id: &str, tier: Tier, seed: u64) -> Report {
                 if rep.failed() {
                     return rep;
                 }
+                // reads of large payloads (a handler may treat them differently: streaming, its own
+                // cache headers): versions and snapshots of a megabyte and more, both backends
+                let r = engine::enumerate_n("C20", "large", 4, vec![(Backend::Mem, 1u32 << 20), (Backend::Sqlite, 1 << 20), (Backend::Mem, (1 << 20) + 1), (Backend::Sqlite, 5_000_000)], check_large_c20);
+                rep.absorb("reads-of-large-payloads", r);
+                if rep.failed() {
+                    return rep;
+                }
                 let mut cases = vec![];
                 for endpoint in 0..5u8 {
                     for attempts in [30u32, 70, 200] {
@@ -1755,13 +1770,11 @@ fn check_sock_c20(sc: &SCase20, st: &mut Stats) -> CheckResult {
         }
         let mut started = None;
         for _ in 0..4 {
-            let l = std::net::TcpListener::bind("127.0.0.1:0").map_err(|e| Fail::Inconclusive(format!("no loopback port: {e}")))?;
-            let port = l.local_addr().unwrap().port();
-            drop(l);
+            let port = crate::props::binary::free_port("127.0.0.1").ok_or_else(|| Fail::Inconclusive("no loopback port".into()))?;
             let mut a = args.clone();
             a.push("--listen".into());
             a.push(format!("127.0.0.1:{port}"));
-            let launch = crate::props::binary::Launch { args: a, env: vec![], connect: vec![format!("127.0.0.1:{port}").parse().unwrap()], cwd: None };
+            let launch = crate::props::binary::Launch { args: a, env: vec![], connect: vec![format!("127.0.0.1:{port}").parse().unwrap()], cwd: None, dir_arg: None };
             if let Ok(p) = crate::props::binary::spawn(&bin, &launch) {
                 started = Some(p);
                 break;
@@ -1959,6 +1972,28 @@ fn check_busy_c20(bc: &BusyCase20, st: &mut Stats) -> CheckResult {
     r
 }
 
+fn check_large_c20(case_: &(Backend, u32), st: &mut Stats) -> CheckResult {
+    let (backend, len) = case_;
+
+    let cfg = case::Cfg::default();
+    let mut drv = Driver::new(*backend, Via::Http, &cfg).map_err(|e| Fail::Violation(format!("opening storage: {e:#}")))?;
+    drv.http_log = Some(vec![]);
+    drv.log_body_limit = 16;
+    let c = case::client_uuid(20, 2);
+    let big = BytesSpec { len: *len, class: 2, seed: 20 }.expand();
+    let Outcome::Accepted { id: v1, .. } = drv.add_version(c, Uuid::nil(), &big) else { return v("set-up failed".to_string()) };
+    let Outcome::Accepted { id: v2, .. } = drv.add_version(c, v1, b"small") else { return v("set-up failed".to_string()) };
+    let _ = drv.add_snapshot(c, v2, &big);
+    let _ = drv.add_version(c, v2, b"another");
+    let _ = drv.get_child(c, Uuid::nil());
+    let _ = drv.get_child(c, v1);
+    let _ = drv.get_snapshot(c);
+    for (rq, rs) in drv.http_log.take().unwrap_or_default() {
+        c20_check(&format!("history with payloads of {len} bytes"), &rq, &rs, st)?;
+    }
+    Ok(())
+}
+
 /// C20 over the allow-list exploration: every response (403s included) must forbid caching.
 fn check_allow_c20(ac: &ACase, st: &mut Stats) -> CheckResult {
     let cfg = ac.prefix.cfg.clone();
@@ -2004,6 +2039,7 @@ pub fn replay(id: &str, kind: &str, case_json: &Value, st: &mut Stats) -> CheckR
         ("C15", "limit") => check_limit(&serde_json::from_value(case_json.clone()).map_err(bad)?, false, st),
         ("C20", "limit") => check_limit(&serde_json::from_value(case_json.clone()).map_err(bad)?, true, st),
         ("C20", "allow") => check_allow_c20(&serde_json::from_value(case_json.clone()).map_err(bad)?, st),
+        ("C20", "large") => check_large_c20(&serde_json::from_value(case_json.clone()).map_err(bad)?, st),
         ("C20", "busy") => check_busy_c20(&serde_json::from_value(case_json.clone()).map_err(bad)?, st),
         ("C20", "fault") => check_fault_c20(&serde_json::from_value(case_json.clone()).map_err(bad)?, st),
         ("C20", "socket") => check_sock_c20(&serde_json::from_value(case_json.clone()).map_err(bad)?, st),
